@@ -12,5 +12,6 @@ func init() {
 	specs["C08"] = spec{Instr: map[string]string{poly + "transform/codon": "maprange,yield,reset,digest"}, Procs: 1, BudgetQuick: 3 * m, BudgetThorough: 25 * m}
 	specs["C07"] = spec{Instr: map[string]string{poly + "transform/codon": "rand", poly + "random": "rand", "github.com/mroth/weightedrand": "rand"}, Procs: 1, BudgetQuick: 3 * m, BudgetThorough: 25 * m}
 	specs["C18"] = spec{Instr: map[string]string{poly + "transform/codon": "rand", "github.com/mroth/weightedrand": "rand"}, Procs: 1, BudgetQuick: 3 * m, BudgetThorough: 25 * m}
+	specs["C03"] = spec{Instr: map[string]string{poly + "io/genbank": "maprange"}, Procs: 1, BudgetQuick: 3 * m, BudgetThorough: 25 * m}
 	specs["C09"] = spec{Instr: map[string]string{poly + "clone": "sched"}, Procs: 1, BudgetQuick: 4 * m, BudgetThorough: 20 * m}
 }
